@@ -205,6 +205,9 @@ def signature(pred, case, info=None):
     if pred == "X06.Oriented" and (info or {}).get("flip") == "geometric-quad-flip":
         # classified by TLC (Extrude!FlipClass): one root cause whatever the path is
         return "%s/polygon-family/geometric-quad-flip" % pred
+    if pred == "X06.NoTwist" and (info or {}).get("twist") == "bend-axis-frame-on-spatial-path":
+        # classified by TLC (Extrude!TwistClass): Shape's frame on a path that leaves its plane
+        return "%s/shape-family/bend-axis-frame-on-spatial-path" % pred
     cls = (info or {}).get("class", "")
     return "%s/%s/%s/%s" % (pred, case["gen"] if case["kind"] == "ext" else "repeat." + case["gen"], cls, path_kind(case))
 
@@ -303,6 +306,13 @@ def corruptions(raw, rejected):
         for i in range(m, 2 * m):                           # ring 1 pushed along +x+y+z: off its plane
             a["pos"][i] = [a["pos"][i][0] + 40, a["pos"][i][1] + 40, a["pos"][i][2] + 40]
         out.append((a, "X06.OnPlane"))
+    a = first(lambda o: o["k"] == "ext" and o["case"]["gen"] == "shape" and path_kind(o["case"]) == "straight"
+              and len(o["case"]["path"]) >= 3 and o["tris"] and o["case"]["stencil"][0] == [4, 0])
+    if a:
+        m = len(a["case"]["stencil"])                       # the square: ring 1 turned by half a turn about the path
+        ring = a["pos"][m:2 * m]
+        a["pos"][m:2 * m] = ring[2:] + ring[:2]
+        out.append((a, "X06.NoTwist"))
     a = first(lambda o: o["k"] == "ext" and o["case"]["gen"] == "screw" and len(o["tris"]) > 2)
     if a:
         a["pos"][-1] = [a["pos"][-1][0] + 5, a["pos"][-1][1], a["pos"][-1][2]]
